@@ -254,8 +254,10 @@ def record_natural(seed, th_c, th_s, n_c=6, n_s=6, mode='mixed', kw=None):
                         f.get('pktlen', 0)))
         elif name == 'pkt_defer':
             log.append((name, side, f['pkttype'], b'', 0))
-        elif name == 'pkt_done':
-            log.append((name, side, f['pkttype'], _snap(f['conn']), 0))
+        elif name in ('pkt_done', 'pkt_handled'):
+            # pkt_handled: an asynchronous handler finished (its pkt_done
+            # only follows a loop iteration later and finds nothing to do)
+            log.append(('pkt_done', side, f['pkttype'], _snap(f['conn']), 0))
 
     # measure what one application packet adds to the re-key counter
     _verif.set_sink(sink)
